@@ -351,6 +351,18 @@ func runC15(c *Ctx) {
 				}
 			}
 		}
+		// a transaction that the executer reports as failed (and that selection therefore drops)
+		// leaves nothing behind in the executer's event list: the list changes only in calls
+		// that end in success
+		if et := c.Anchor("pkg/generator.(*stateExecuter).ExecuteTransaction"); et != nil {
+			ef := factsOf(et)
+			ws := fieldWrites(et, "generator.stateExecuter", "events")
+			for _, w := range ws {
+				path := reachesReturnAvoiding(w, func(ssa.Instruction) bool { return false }, func(r *ssa.Return) bool { return classifyReturn(ef, r) == RetErr })
+				c.Require("C15.R5 dropped-transaction-leaves-no-events", FuncKey(et), p.InstrPos(w), "events are recorded only on the way to a successful return (the block's event root covers exactly the included transactions)", path == nil, pathStr(path))
+			}
+			c.MinInstances("C15.R5 dropped-transaction-leaves-no-events", len(ws), 1)
+		}
 		// appended only after both succeeded
 		for _, call := range AllCalls(sel) {
 			if CalleeName(call.Common()) == "builtin:append" && strings.Contains(typeName(call.Value().Type()), "blockchain.Transaction") {
